@@ -329,6 +329,11 @@ def eval_item(item):
 def run(ctx):
     import guppylang_internals.experimental as ex
     ex.enable_experimental_features()
+    if not ctx.quick:
+        # thorough: every ordered composition of two different placements as well (construct inside an if inside a loop, ...)
+        base = dict(PLACEMENTS)
+        for (n1, f1), (n2, f2) in __import__("itertools").permutations(base.items(), 2):
+            PLACEMENTS[f"{n2}>{n1}"] = (lambda ls, f1=f1, f2=f2: f2(f1(ls)))
     items = [(n, k, ls, p) for (n, k, ls) in CONSTRUCTS for p in PLACEMENTS]
     res = ctx.pmap(eval_item, items, chunk=6)
     acc = rej = syn = 0
@@ -350,7 +355,8 @@ def run(ctx):
             ctx.violation(f"{cls}:{it[0]}", f"construct `{it[0]}` ({it[3]}): {r['dis']}", {"item": [it[0], it[1], it[2], it[3]]})
     return {
         "evaluations": len(items) - syn, "distinct_nontrivial": acc + rej,
-        "rule": "one host per Python statement/expression kind or optional clause (78 constructs) x 4 placements; non-trivial = valid Python "
+        "rule": f"one host per Python statement/expression kind, optional clause, cardinality and position ({len(CONSTRUCTS)} constructs) x "
+                f"{len(PLACEMENTS)} placements; non-trivial = valid Python "
                 "in that placement, decided as rejected or accepted-and-compared with CPython on x in {1, 7}",
         "samples": [{"construct": n, "lines": ls} for (n, k, ls) in CONSTRUCTS[:4]],
         "constructs": len(CONSTRUCTS), "accepted": acc, "rejected": rej, "not_valid_python_in_placement": syn,
@@ -361,5 +367,9 @@ def run(ctx):
 def replay(ctx, item):
     import guppylang_internals.experimental as ex
     ex.enable_experimental_features()
+    if ">" in item["item"][3] and item["item"][3] not in PLACEMENTS:
+        n2, n1 = item["item"][3].split(">")
+        f1, f2 = PLACEMENTS[n1], PLACEMENTS[n2]
+        PLACEMENTS[item["item"][3]] = (lambda ls: f2(f1(ls)))
     r = eval_item(tuple(item["item"]))
     return {"violation": bool(r["dis"]), "result": r, "source": source(item["item"][2], item["item"][3])}
